@@ -90,6 +90,8 @@ type State struct {
 	inputLens  map[string]*Term
 	extraTerms []*Term
 	symDecisions int
+	stepLimit    int    // verifrt.SetStepBudget: exceeding it is a non-termination violation
+	stepMsg      string
 	retry    bool // state was forked mid-instruction and re-executes it
 	acctDone bool // allocation of the current instruction already accounted
 }
@@ -98,7 +100,7 @@ var stateCounter int
 
 func (st *State) clone() *State {
 	stateCounter++
-	c := &State{id: stateCounter, alloc: st.alloc, panic_: st.panic_, steps: st.steps, budget: st.budget, retry: true, acctDone: st.acctDone, symDecisions: st.symDecisions}
+	c := &State{id: stateCounter, alloc: st.alloc, panic_: st.panic_, steps: st.steps, budget: st.budget, retry: true, acctDone: st.acctDone, symDecisions: st.symDecisions, stepLimit: st.stepLimit, stepMsg: st.stepMsg}
 	c.frames = make([]*Frame, len(st.frames))
 	for i, f := range st.frames {
 		c.frames[i] = f.clone()
